@@ -327,6 +327,11 @@ impl Progress {
         let _ = self.file.seek(SeekFrom::Start(0));
         let _ = self.file.write_all(&buf);
     }
+    /// all cases are done; what follows (writing the result files) is not a case that can hang
+    fn finishing(&mut self) {
+        let _ = self.file.seek(SeekFrom::Start(0));
+        let _ = self.file.write_all(&u64::MAX.to_le_bytes());
+    }
 }
 
 fn trim_sample(j: J) -> J {
@@ -472,6 +477,7 @@ pub fn worker_main(prop: &dyn Property, tier: Tier, seed: u64, k: u64, n: u64, o
         }
     }
 
+    progress.borrow_mut().finishing();
     let st = stats.into_inner();
     let failure_json = failure.as_ref().map(|(b, f)| {
         json!({
@@ -828,7 +834,18 @@ pub fn parent_main(prop: &dyn Property, tier: Tier) -> i32 {
                         .filter(|b| b.len() >= 8)
                         .map(|b| u64::from_le_bytes(b[0..8].try_into().unwrap()))
                         .unwrap_or(0);
-                    if counter != w.last_counter || w.cpu_at_change.is_none() {
+                    if counter == u64::MAX {
+                        // the worker is writing its result files: only a very long silence counts
+                        if w.last_counter != u64::MAX {
+                            w.last_counter = u64::MAX;
+                            w.last_change = Instant::now();
+                        } else if w.last_change.elapsed() > Duration::from_secs(1800) {
+                            let _ = w.child.kill();
+                            let _ = w.child.wait();
+                            w.done = true;
+                            w.abnormal = Some(OneResult::Hang);
+                        }
+                    } else if counter != w.last_counter || w.cpu_at_change.is_none() {
                         w.last_counter = counter;
                         w.last_change = Instant::now();
                         w.cpu_at_change = proc_cpu_secs(w.child.id());
